@@ -35,11 +35,14 @@ Upd(e) ==
     [] e.ev = "call" ->
          /\ calls' = e.c :> [g |-> e.g, msgs |-> e.msgs, returned |-> FALSE, result |-> "none",
                              errs |-> <<>>, seq |-> Cardinality(DOMAIN calls) + 1,
-                             entered |-> FALSE, afterClose |-> closeState = "returned"] @@ calls
+                             entered |-> FALSE, left |-> FALSE, afterClose |-> closeState = "returned"] @@ calls
          /\ chosen' = e.c :> <<>> @@ chosen
          /\ UNCHANGED <<cfg, log, attempts, completions, closeState, hangs, tid>>
     [] e.ev = "enter" /\ e.c \in DOMAIN calls ->
          /\ calls' = [calls EXCEPT ![e.c].entered = e.ok]
+         /\ UNCHANGED <<cfg, chosen, log, attempts, completions, closeState, hangs, tid>>
+    [] e.ev = "leave" /\ e.c \in DOMAIN calls ->
+         /\ calls' = [calls EXCEPT ![e.c].left = TRUE]
          /\ UNCHANGED <<cfg, chosen, log, attempts, completions, closeState, hangs, tid>>
     [] e.ev = "balance" /\ e.c \in DOMAIN chosen ->
          /\ chosen' = [chosen EXCEPT ![e.c] = (e.i :> e.p) @@ @]
@@ -80,6 +83,10 @@ C08_NoStuckCall == \A h \in hangs : h[1] # "call"
 C08_SingleTP == \A h \in hangs : h[1] # "badrequest"
 \* C09 (liveness half, observed): Close returned before the watchdog expired
 C09w_CloseReturns == \A h \in hangs : h[1] # "close"
+
+\* nothing is sent or completed once Close has returned (trace form: a "cfg" event starts another trace)
+C09w_QuietAfterCloseT ==
+  [][(closeState = "returned" /\ tid' = tid /\ Trace[l].ev # "cfg") => UNCHANGED <<attempts, completions, log>>]_mvars
 
 TraceAccepted == TLCGet("stats").diameter = Len(Trace) + 1
 =============================================================================
